@@ -30,6 +30,8 @@ META["explanation"] += " R09.11 imbl's asserting partial calls (take / split_at 
 META["explanation"] += " R09.12 view-length balance (engine/rules/balance.py): a path-partitioned abstract interpretation in the domain of linear inequalities over L/C (limit, count), P (previous length), I, K (payload index / length), A, R (payload sizes), N, O (buffer length, old limit in the update functions): on every path of every arm of the three translators and of update_limit / update_count the length of the consumer's view after the emitted diffs, view(P) + effects, equals view(N') for the new source length in every feasible case (min / saturating_sub split into linear pieces, emptiness by Fourier-Motzkin elimination, a violation only with a concrete witness of the symbols); R09.13 every emitted Insert / Set / Remove index lies inside the view it is applied to and its computation does not underflow; R09.14 every item the poll function returns comes out of the container operations (translator / update function), never the polled source item itself."
 META["explanation"] += " R09.15 refill positions (balance.py): an item the adapter refills the view with (a looked-up `buffered_vector.get(i)`, an iterator group over the buffer, an appended slice of it) is taken from the buffer position adjacent to the view - index `cur` for a Head view (a prefix), `N' - cur - 1` (descending) for Tail and Skip views (suffixes) - in every feasible case, for translators and update functions: right count *and* right items."
 META["explanation"] += ' R09.16 checked additions / multiplications whose operand is the raw limit / count value (which may be usize::MAX) are reported: the stream panics where the property demands a view.'
+META["explanation"] += ' R09.9 decides the collect() idioms (a Peekable whose peek() is Some on every path; `repeat(x).take(a - b)` under a > b) and, in the balance analysis, reports a path that answers Some(..) with only `x n` groups whose counts can all be 0 (witness). R09.5 is UNDECIDED when the translator does not build its result by pushes; the balance analysis refuses (UNDECIDED) paths on which a diff is built but not pushed. An update function written as a free function over the projected fields is recognised; its own rules are then not evaluated (UNDECIDED), the rest of the adapter is.'
+META["explanation"] += ' R09.17 no panic! / assert! of their own in the Head / Tail / Skip modules. Shared with C12: R12.1 / R12.2 (what into_parts hands to the next stage).'
 
 
 def run(ctx):
@@ -38,28 +40,40 @@ def run(ctx):
     register_roles(ctx, ads)
     for name in ADAPTERS:
         a = ads[name]
+        free_update = a.update is None and getattr(a, "update_alt", None) is not None
         for what, v in (("translator", a.translator), ("poll function", a.poll), ("update function", a.update), ("per-diff closure", a.closure)):
-            if v is None:
+            if v is None and not (what == "update function" and free_update):
                 ctx.missing("R09.0", "%s of %s" % (what, name))
-        if None in (a.translator, a.poll, a.update, a.closure):
+        if free_update:
+            ctx.undecided("R09.0", a.update_alt, "update-function-shape", a.update_alt.loc(),
+                          "the %s update function is a free function over the projected fields: the rules about it (R09.4, R09.7, R09.9, update balance) are written for the method shape and are not evaluated" % name)
+        if None in (a.translator, a.poll, a.closure) or (a.update is None and not free_update):
             continue
         r09_1(ctx, a)
         r09_3(ctx, a)
-        r09_4(ctx, a)
+        if not free_update:
+            r09_4(ctx, a)
         r09_5(ctx, a)
-        r09_7(ctx, a)
+        if not free_update:
+            r09_7(ctx, a)
         r09_8(ctx, a)
-        r09_9(ctx, a)
+        if not free_update:
+            r09_9(ctx, a)
         r09_14(ctx, a)
         r09_10(ctx, a)
         from . import balance
         nb = balance.run_adapter(ctx, a, want=("balance", "index", "bound"))
         ctx.floor("R09.12", nb, 11)
-        balance.run_update(ctx, a)
+        if not free_update:
+            balance.run_update(ctx, a)
         sites = [(blk, t) for blk, t in a.poll.built.calls() if wakers.is_poll_call(t)] + [(blk, t) for blk, t, c in wakers.local_poll_helper_calls(F, a.poll)]
         wakers.check_poll_fn(ctx, "R14.1", a.poll, sites)
     r09_6(ctx, ads)
     r09_11(ctx)
+    r09_17(ctx)
+    # the view an adapter hands to an adapter stacked on it (VectorObserver::into_parts) is part of "presents exactly the .. items"
+    from . import c12
+    c12.parts_rules(ctx)
     r09_16(ctx)
     # applicability / order of what is emitted also rests on the buffer discipline and on room-before-entry
     from . import groups, c15 as _c15
@@ -169,6 +183,11 @@ def r09_5(ctx, a):
     ev = {blk for blk, kind, vs, e, cnt in emits(b)}
     multi = arm_targets(info)[1]
     n = 0
+    if not ev:
+        # the translator does not build its result by pushing onto a buffer (e.g. one Option<VectorDiff> per arm, collected at the
+        # end): "which arm emits" is read off the pushes, so it is not decided for this shape
+        ctx.undecided("R09.5", f, "arm=*", f.loc(), "the %s translator's result is not built by pushes: emitting arms not determined" % a.name)
+        return
     for v in VARIANTS:
         if v in arms:
             region = arm_region(b, sw, arms[v])
@@ -324,7 +343,8 @@ def r09_8(ctx, a):
         ctx.undecided("R09.8", f, "fifo", f.loc(), "no pop_from_*_buf call")
         return
     plocs = {(blk, len(b.blocks[blk]["stmts"])) for blk, _ in pops}
-    producers = [(blk, t) for blk, t in b.calls() if (F.local_callee(f, t) is a.update) or re.search(r"::(push_into|extend)_\w+_buf", t.get("callee") or "")]
+    upd = a.update or getattr(a, "update_alt", None)
+    producers = [(blk, t) for blk, t in b.calls() if (upd is not None and F.local_callee(f, t) is upd) or re.search(r"::(push_into|extend)_\w+_buf", t.get("callee") or "")]
     for blk, t in producers:
         facts = conds.bare(conds.dominating_facts(b, blk))
         empty = any(x[0] == "variant" and x[2] == frozenset(["None"]) and strip(x[1], through_calls=False)[0] == "call" and strip(x[1], through_calls=False)[4] in plocs for x in facts)
@@ -649,3 +669,23 @@ def r09_16(ctx):
                                      f.path, fmt(b.expr_of_rv(s_["rv"], 6, ()), 4), "count" if "skip" in f.path else "limit", s_["rv"]["op"].replace("WithOverflow", "")))
     if not bad:
         ctx.holds("R09.16", None, "no-overflowing-arithmetic-on-the-limit", None, "%d checked additions / multiplications in the Head, Tail, Skip modules, none with the limit / count as an operand" % n)
+
+
+
+def r09_17(ctx):
+    """Head, Tail and Skip contain no `panic!` / `assert!` of their own: every source diff that the ObservableVector can produce
+    (an Insert at the very end, a Set of the last item ..) must come out as a view, not as a panic of the adapter. Expected count 0."""
+    F = ctx.facts
+    n = 0
+    for f in F.find(crate=UT):
+        b = f.built
+        if not b or not re.search(r"vector::(head|tail|skip)::", f.path):
+            continue
+        for blk, t in b.calls(r"^core::panicking::(panic|panic_fmt|panic_display|assert_failed|panic_explicit|unreachable_display)$|^std::rt::(begin_panic|panic_fmt)$"):
+            sp = t.get("span") or {}
+            n += 1
+            root = root_fn(F, f)
+            ctx.violated("R09.17", root, "no-own-panic", b.line_at((blk, 10 ** 6)),
+                         "`%s` contains a panic / assertion of its own: a source diff that trips it (e.g. an Insert at the very end of the vector, index == length) makes the adapter's stream panic where the property demands the corresponding view" % root.path)
+    if not n:
+        ctx.holds("R09.17", None, "no-own-panic", None, "no panic!/assert! in the Head / Tail / Skip modules")
